@@ -45,9 +45,10 @@ def facts(c):
 
 def setup(c):
     c.cov["rule"] = ("op lines against the real pdOracle behind a scripted pd.Client (responses released by the script): "
-                     "every schedule of start/issue/arrive events for 1..3 callers of kinds {GetTimestamp, ValidateReadTS of the newest issued ts, of the next ts, of a far-future ts} "
+                     "every schedule of start/issue/arrive events for 1..3 actors of kinds {GetTimestamp, ValidateReadTS of the newest issued ts, of the next ts, of a far-future ts, "
+                     "one tick of the REAL background updater goroutine (updateTS/doUpdate, triggered through its own loop by an add-only export; its PD response is held like any other)} "
                      "(quick; 4 callers: every issue/arrival order after all have called; thorough: 4 callers fully interleaved for kinds {get, validate-next}, every kind mix with starts first), "
-                     "seeded random schedules with 2..8 callers, async calls, stale-read flag, PD jumps across physical boundaries; after every op the model must predict "
+                     "seeded random schedules with 2..8 actors (half of the worlds with the updater), async calls, stale-read flag, PD jumps across physical boundaries; after every op the model must predict "
                      "the returned value / verdicts / cached ts; `check` evaluates the property on the implementation's own observations "
                      "(cached ts monotone and <= max issued, real-time order of returned ts, accept => readTS <= issued at end, reject => readTS > issued before the call); "
                      "p-exp: IsExpired <=> UntilExpired <= 0 on boundary lock/ttl values; compose/extract; nextUpdateInterval / SetLowResolutionTimestampUpdateInterval on "
@@ -59,7 +60,9 @@ def setup(c):
         "expired_iff_until_nonpos is proved (and p-exp generated) for TTL < 2^63 - 2^46 ms, where int64(TTL) and the addition do not wrap; outside that range the code's two answers disagree "
         "(theorem expired_overflow_corner; correspondence ops isexp/until still cover it)",
         "ValidateReadTS(MaxUint64, non-stale) returns nil by design (read-latest sentinel); it is a correspondence op, not part of validate_rejects_future",
-        "PD never fails and contexts are never cancelled in the model; GetStaleTimestamp, the arrival-time field and the wall-clock ticker loop (updateTS) are not modelled",
+        "PD never fails and contexts are never cancelled in the model; GetStaleTimestamp and the arrival-time field are not modelled",
+        "background updater: one tick (Range over the map, getTimestamp, setLastTS) is an actor of the model and of the schedules; the harness makes the real updateTS loop run doUpdate through its shrink-interval branch "
+        "(export VerifTriggerUpdate) with an hour-long ticker period; the ticker timing itself and the interplay of stale-read signals with the ticker are not modelled (stale-flagged validations are not generated in worlds with the updater)",
         "the load/CAS window of setLastTS is covered by the theorems (all interleavings of the model's steps) and by the free-running stress op only: the harness cannot pause a goroutine inside setLastTS without a source hook",
         "validate_accepts_past is a safety statement (never ErrFutureTSRead); termination of ValidateReadTS needs fairness of PD and is not stated",
         "commit-wait: GetTimestamp errors inside the loop (BoPDRPC back-off with jitter) are not modelled; time.Sub saturation is modelled",
